@@ -257,12 +257,19 @@ def probes(schema):
         out.append((tag, path, KIND[tgt.kind], e.name))
         if tgt.kind == "enum":
             for v in tgt.values:
-                out.append(("%s::%s" % (tag, v.name), path + "." + v.name, 512, v.name))
+                if not (e.kind == "ref" and v.name == e.name):
+                    out.append(("%s::%s" % (tag, v.name), path + "." + v.name, 512, v.name))
         elif tgt.kind == "set":
             for c in tgt.choices:
-                out.append(("%s::%s" % (tag, c.name), path + "." + c.name, 1024, c.name))
+                if not (e.kind == "ref" and c.name == e.name):
+                    out.append(("%s::%s" % (tag, c.name), path + "." + c.name, 1024, c.name))
         elif tgt.kind == "composite":
             for e2 in tgt.elements:
+                if e.kind == "ref" and e2.name == e.name:
+                    # reached through a <ref> the element tags are *inherited* (an undocumented convenience); an
+                    # inherited member named like the ref's own tag is hidden by the injected class name.  Its
+                    # documented path (through the referred composite) is probed where that composite is walked.
+                    continue
                 enc(e2, "%s::%s" % (tag, e2.name), path + "." + e2.name)
 
     for t in schema.types:
@@ -273,6 +280,10 @@ def probes(schema):
             out.append(("%s::%s" % (tag, f.name), path + "." + f.name, 16, f.name))
             fe = m.field_enc(f)
             # members of the field's type are reachable through the field tag as well
+            first = (fe.values if fe is not None and fe.kind == "enum" else fe.choices if fe is not None and fe.kind == "set"
+                     else fe.elements if fe is not None and fe.kind == "composite" else [])
+            if first and first[0].name == f.name:
+                continue          # same injected-class-name situation as for refs above
             if fe is not None and fe.kind == "enum" and fe.values:
                 out.append(("%s::%s::%s" % (tag, f.name, fe.values[0].name), path + "." + f.name + "." + fe.values[0].name, 512, fe.values[0].name))
             if fe is not None and fe.kind == "set" and fe.choices:
